@@ -1737,6 +1737,7 @@ theorem runSteps_ghost (env : Env) (h : env.t = expectedReturns) (body : List St
         intro ho
         rw [iok ho, gok hr]
     | fail tag => simp [runSteps, TxSt.raise]
+    | fail1 tag => simp [runSteps, TxSt.raise]
     | addCommit tag => exact ih hrest _
     | addPre tag fails => exact ih hrest _
     | nestedBegin => exact ih hrest _
@@ -1784,6 +1785,7 @@ theorem runSteps_refines (env : Env) (h : env.t = expectedReturns) (body : List 
         obtain ⟨j1, j2, j3⟩ := i4 ho
         exact ⟨j1, j2, by rw [j3, r4]⟩
     | fail tag => simp [runSteps, specSteps, TxSt.raise, hctx]
+    | fail1 tag => simp [runSteps, specSteps, TxSt.raise, hctx]
     | addCommit tag =>
       unfold runSteps specSteps
       exact ih hprest _ _ hdb (by simp [hctx]) hacc hq
@@ -1895,7 +1897,7 @@ def txFlows (env : Env) (db : Db) (prevCtx : Ctx) (tx : TxSpec) : List Flow :=
   | .update => (specBody env db ctx tx.body).flows
   | .batch =>
     let a := specBody env db ctx tx.body
-    if a.accepted && preOk a.ctx then a.flows else (specBody env db a.ctx tx.body).flows
+    if a.accepted && preOk a.ctx then a.flows else (specBody env.later db a.ctx (laterBody tx.body)).flows
 
 /-- agreement of the model's outcome of a transaction with the spec's -/
 structure TxAgree (env : Env) (o : TxOut) (s : SpecOut) (flows : List Flow) (txc : Bool) : Prop where
@@ -1973,15 +1975,61 @@ theorem specTxWith_txc (env : Env) (txc txc' : Bool) (db : Db) (ctx : Ctx) (body
   rw [specTxWith_eq, specTxWith_eq]
   cases hx : ((specBody env db ctx body).accepted && preOk (specBody env db ctx body).ctx) <;> simp
 
+/-! #### a body that is executed again (Db.Batch's re-run) -/
+
+theorem later_t (env : Env) : env.later.t = env.t := rfl
+theorem later_txListeners (env : Env) : env.later.txListeners = env.txListeners := rfl
+
+theorem later_regs (env : Env) (σ : StoreId) : env.later.regs σ = spendAt (env.once σ) 0 (env.regs σ) := by
+  cases σ <;> rfl
+
+/-- spent vetoes do not change what runs at commit: same registrations at the same positions -/
+theorem postCommit_spendAt (fl : Flow) (once : List Nat) (k : Nat) (l : List Reg) :
+    postCommit fl (indexFrom k (spendAt once k l)) = postCommit fl (indexFrom k l) := by
+  induction l generalizing k with
+  | nil => rfl
+  | cons r rest ih =>
+    simp only [spendAt, indexFrom]
+    cases r with
+    | listener st types => simp only [Reg.spent, ite_self, postCommit, ih]
+    | constraint ty vs =>
+      by_cases hc : once.contains k = true
+      · simp only [hc, if_true, Reg.spent, postCommit, ih]
+      · simp only [hc, Bool.false_eq_true, if_false, postCommit, ih]
+
+theorem commitList_later (env : Env) (ctx : Ctx) (flows : List Flow) (txc : Bool) :
+    commitList env.later ctx flows txc = commitList env ctx flows txc := by
+  unfold commitList
+  rw [later_txListeners]
+  congr 2
+  induction flows with
+  | nil => rfl
+  | cons fl rest ih =>
+    simp only [List.flatMap_cons, ih]
+    congr 1
+    rw [later_regs]
+    unfold indexed
+    exact postCommit_spendAt fl _ 0 _
+
+theorem laterBody_propagating (body : List Step) (hp : Propagating body) : Propagating (laterBody body) := by
+  intro s hs
+  unfold laterBody at hs
+  exact hp s (List.mem_filter.mp hs).1
+
+theorem TxAgree.of_later {env : Env} {o : TxOut} {s : SpecOut} {flows : List Flow} {txc : Bool}
+    (h : TxAgree env.later o s flows txc) : TxAgree env o s flows txc :=
+  ⟨h.res, h.db, h.ctx, h.specified, h.exact, fun hok => by rw [← commitList_later]; exact h.fired_ok hok, h.fired_err⟩
+
 /-- Db.Batch (since cb70ebf it registers the tx-complete listeners exactly as Db.Update does)
-    against the spec of a transaction -/
+    against the spec of a transaction: a first attempt that fails is run again — with whatever fails
+    only the first time spent — and a second attempt that is accepted commits -/
 theorem dbBatch_agree (env : Env) (h : env.t = expectedReturns) (db : Db) (ctx : Ctx)
     (body : List Step) (hp : Propagating body) :
     TxAgree env (dbBatch env db ctx body)
       (if (specTxWith env true db ctx body).ok then specTxWith env true db ctx body
-        else specTxWith env true db (specTxWith env true db ctx body).ctx body)
+        else specTxWith env.later true db (specTxWith env true db ctx body).ctx (laterBody body))
       (if (specBody env db ctx body).accepted && preOk (specBody env db ctx body).ctx then (specBody env db ctx body).flows
-        else (specBody env db (specBody env db ctx body).ctx body).flows) true := by
+        else (specBody env.later db (specBody env db ctx body).ctx (laterBody body)).flows) true := by
   obtain ⟨a1, a2, _, _⟩ := attempt_refines env h true db ctx body hp
   obtain ⟨s1, s2⟩ := specTxWith_ok env true db ctx body
   have first := attempt_agree env h true db ctx body hp 1 [] [] []
@@ -1999,7 +2047,9 @@ theorem dbBatch_agree (env : Env) (h : env.t = expectedReturns) (db : Db) (ctx :
       cases hx : (specBody env db ctx body).accepted <;> cases hy : preOk (specBody env db ctx body).ctx <;> simp_all
     simp only [s1, hn', Bool.false_eq_true, if_false, s2]
     rw [← a1]
-    exact attempt_agree env h true db (attempt env true db ctx body).st.ctx body hp 2 _ _ _
+    exact TxAgree.of_later
+      (attempt_agree env.later (by rw [later_t]; exact h) true db (attempt env true db ctx body).st.ctx
+        (laterBody body) (laterBody_propagating body hp) 2 _ _ _)
 
 /-- the caller hands every operation error on (injected storage faults are allowed) -/
 def TxSpec.wellBehaved (tx : TxSpec) : Prop := Propagating tx.body
